@@ -2,7 +2,8 @@
 # usage: tools/ns_mutant.sh <patch-file> <prop>...
 # Like try_mutant.sh, but the real /repo is never touched: the patch is applied to a scratch clone of /repo's HEAD
 # that is bind-mounted over /repo in a private mount namespace, together with scratch build, evidence and replay
-# directories. Safe to use while a sweep that rebuilds from /repo is running. Scratch space: /tmp/mutns (remove it
+# directories, and the harness sources (sim/src, slot/src, tools) are those of /verif's HEAD commit. Safe to use while a
+# sweep that rebuilds from /repo is running and while /verif's working tree is being edited. Scratch space: /tmp/mutns (remove it
 # when done: rm -rf /tmp/mutns).
 patch="$1"; shift
 case "$patch" in /*) ;; *) patch="$(pwd)/$patch";; esac
@@ -15,6 +16,9 @@ git -C "$S/repo" fetch -q origin 2>/dev/null
 git -C "$S/repo" checkout -q --detach "$head" 2>/dev/null || { echo "scratch clone cannot reach $head"; exit 2; }
 git -C "$S/repo" checkout -q -- . ; git -C "$S/repo" clean -fdq -e target
 mkdir -p "$S/target" "$S/slot-target" "$S/evidence" "$S/replays"
+# the harness sources are those of /verif's HEAD commit, not the working tree (which may be mid-edit)
+rm -rf "$S/vh"; mkdir -p "$S/vh"
+git -C /verif archive HEAD sim/src slot/src tools | tar -x -C "$S/vh" || exit 2
 cp -a /verif/evidence/. "$S/evidence"/ 2>/dev/null
 props="$*"
 exec unshare -m bash -c "
@@ -22,6 +26,9 @@ exec unshare -m bash -c "
   mount --bind $S/target /verif/sim/target &&
   mount --bind $S/slot-target /verif/slot/target &&
   mount --bind $S/evidence /verif/evidence &&
-  mount --bind $S/replays /verif/replays || exit 2
+  mount --bind $S/replays /verif/replays &&
+  mount --bind $S/vh/sim/src /verif/sim/src &&
+  mount --bind $S/vh/slot/src /verif/slot/src &&
+  mount --bind $S/vh/tools /verif/tools || exit 2
   /verif/tools/try_mutant.sh '$patch' $props
 "
